@@ -184,6 +184,8 @@ func updates(metricsYAML string) []update {
 			update{Name: "add-one-with-quota-and-path-params", Endpoint: ep, Valid: true, FlowDefs: confModel{"fc.yaml": {"c.com", 419}},
 				Quotas: map[string]string{"q2.yaml": strings.ReplaceAll(quotaFile, "quota.com", "quota2.com")}, PathPar: map[string]string{"pp.yaml": "pathParams:\n  - url: pp.com/{id}\n"}},
 			update{Name: "gateway-and-metrics-only", Endpoint: ep, Valid: true, Gateway: "allowed_domains: []\n", Metrics: metricsYAML},
+			update{Name: "valid-flows-with-unloadable-metrics", Endpoint: ep, FlowDefs: confModel{"fa.yaml": {"a.com", 419}, "fonlyb.yaml": {"onlyb.com", 419}}, Metrics: "general_metrics:\n  label_value: [unterminated\n"},
+			update{Name: "valid-flows-with-metrics-of-wrong-shape", Endpoint: ep, FlowDefs: confModel{"fa.yaml": {"a.com", 419}}, Metrics: "general_metrics: 17\nsystem_metrics: yes\n"},
 			update{Name: "invalid-undecodable-json", Endpoint: ep, RawBody: "{\"flows\": {\"x.yaml\": "},
 			update{Name: "invalid-bad-base64-second-file", Endpoint: ep, FlowDefs: confModel{"fa.yaml": {"a.com", 419}}, RawFlows: map[string]string{"zz.yaml": "!!raw:***not-base64***"}},
 			update{Name: "invalid-structure", Endpoint: ep, FlowDefs: confModel{"fa.yaml": {"a.com", 419}}, RawFlows: map[string]string{"bad.yaml": "name: bad\nfilter:\n  url: c.com/*\n"}},
@@ -202,17 +204,21 @@ type faultCall struct {
 }
 
 type replay struct {
-	Update    update      `json:"update"`
-	FaultAt   int         `json:"fault_at"` // 0 = none, k = k-th fault point fails
-	AlsoFaultAt int       `json:"also_fault_at,omitempty"` // second (restore-time) fault
-	Points    []faultCall `json:"fault_points_passed,omitempty"`
-	Status    int         `json:"status"`
-	Body      string      `json:"body,omitempty"`
-	TreeDiff  []string    `json:"tree_diff,omitempty"`
-	Behaviour string      `json:"behaviour,omitempty"`
+	Update      update      `json:"update"`
+	FaultAt     int         `json:"fault_at"`                // 0 = none, k = k-th fault point fails
+	AlsoFaultAt int         `json:"also_fault_at,omitempty"` // second (restore-time) fault
+	Points      []faultCall `json:"fault_points_passed,omitempty"`
+	Status      int         `json:"status"`
+	Body        string      `json:"body,omitempty"`
+	TreeDiff    []string    `json:"tree_diff,omitempty"`
+	Behaviour   string      `json:"behaviour,omitempty"`
 }
 
 type world struct {
+	// base: the configuration every run starts from. baseA (two flows + a quota file) or the empty model:
+	// a fresh gateway with no persisted file at all
+	base    confModel
+	tag     string // "" for baseA, "from-empty-gateway/" otherwise (prefix of the cause in signatures)
 	eng     *sim.Engine
 	v       *sim.Verdict
 	metrics string
@@ -253,13 +259,17 @@ func sameAnswers(a, b map[string]int) bool {
 // resetToA restores the baseline on disk and in the engine.
 func (w *world) resetToA() bool {
 	verifhook.SetFault(nil)
-	sim.WriteConfDir(sim.Config{Flows: baseA.files(), Quotas: map[string]string{"q.yaml": quotaFile}})
+	cfg := sim.Config{Flows: w.base.files()}
+	if len(w.base) > 0 {
+		cfg.Quotas = map[string]string{"q.yaml": quotaFile}
+	}
+	sim.WriteConfDir(cfg)
 	code, body := w.eng.Admin("POST", "/load_flows", nil)
 	if code != 200 {
 		w.v.Inconclude(fmt.Sprintf("harness: cannot reload baseline A: %d %s", code, body))
 		return false
 	}
-	if got := w.probeAll(); !sameAnswers(got, modelAnswers(baseA)) {
+	if got := w.probeAll(); !sameAnswers(got, modelAnswers(w.base)) {
 		w.v.Inconclude(fmt.Sprintf("harness: baseline A does not behave as A: %v", got))
 		return false
 	}
@@ -313,14 +323,14 @@ func (w *world) runOne(u update, failAt int, alsoFail int, points *[]faultCall) 
 		return
 	}
 	rp := replay{Update: u, FaultAt: failAt, AlsoFaultAt: alsoFail, Points: calls, Status: code, Body: body}
-	cause := "no-fault/" + u.Name
+	cause := w.tag + "no-fault/" + u.Name
 	if failAt > 0 {
 		if failAt > len(calls) {
 			w.v.Count("fault_point_not_reached", 1)
 			return
 		}
 		// restore-time points are reported apart from update-time ones
-		cause = "fault-" + calls[failAt-1].Point
+		cause = w.tag + "fault-" + calls[failAt-1].Point
 		if alsoFail > 0 && alsoFail <= len(calls) {
 			cause += "+restore-time-" + calls[alsoFail-1].Point
 		}
@@ -361,7 +371,7 @@ func (w *world) runOne(u update, failAt int, alsoFail int, points *[]faultCall) 
 	success := code >= 200 && code < 300
 	if success {
 		w.v.Count("updates_succeeded", 1)
-		want := u.after(baseA)
+		want := u.after(w.base)
 		if !sameAnswers(got, modelAnswers(want)) {
 			w.v.Violate(fmt.Sprintf("C08/success-but-not-the-new-configuration/%s/%s", u.Endpoint, cause),
 				fmt.Sprintf("update answered %d, the new configuration answers %v, the engine answers %v", code, modelAnswers(want), got), rp)
@@ -395,10 +405,20 @@ func (w *world) runOne(u update, failAt int, alsoFail int, points *[]faultCall) 
 			fmt.Sprintf("update answered %d but the configuration tree differs from before: %v", code, diff), rp)
 		return
 	}
-	if !sameAnswers(got, modelAnswers(baseA)) {
+	if !sameAnswers(got, modelAnswers(w.base)) {
 		w.v.Violate(fmt.Sprintf("C08/failed-update-changed-behaviour/%s/%s", u.Endpoint, cause),
-			fmt.Sprintf("update answered %d, files unchanged, but the engine answers %v instead of %v", code, got, modelAnswers(baseA)), rp)
+			fmt.Sprintf("update answered %d, files unchanged, but the engine answers %v instead of %v", code, got, modelAnswers(w.base)), rp)
 		return
+	}
+	if len(w.base) == 0 && failAt == 0 {
+		// the gateway must not be wedged by what the rejected update left behind
+		ok := update{Name: "valid-after-rejected", Endpoint: u.Endpoint, Valid: true, FlowDefs: confModel{"fa.yaml": {"a.com", 419}}}
+		c3, b3, _, p3 := w.apply(ok, 0, 0)
+		if !p3 && (c3 < 200 || c3 >= 300) {
+			w.v.Violate(fmt.Sprintf("C08/valid-update-rejected-after-a-failed-one/%s/%s", u.Endpoint, cause),
+				fmt.Sprintf("after the rejected update (%d) a valid update was answered %d %s", code, c3, b3), rp)
+			return
+		}
 	}
 	w.v.Distinct(fmt.Sprintf("fail/%s/%s/%s", u.Endpoint, u.Name, cause))
 	if w.v.Counters["runs"]%17 == 0 {
@@ -501,7 +521,7 @@ func main() {
 		v.Inconclude("engine did not boot: " + err.Error())
 		os.Exit(v.Write())
 	}
-	w := &world{eng: eng, v: v, metrics: metricsYAML}
+	w := &world{eng: eng, v: v, metrics: metricsYAML, base: baseA}
 	us := updates(metricsYAML)
 	if args.Replay != "" {
 		data, rerr := os.ReadFile(args.Replay)
@@ -551,6 +571,26 @@ func main() {
 			w.runOne(j.u, j.failAt, j.failAt+1, nil)
 		}
 	}
+	// the same updates on a fresh gateway (no persisted file): no-fault runs of every payload, and the full
+	// fault sweep in the thorough tier
+	w.base, w.tag = confModel{}, "from-empty-gateway/"
+	idx = 0
+	for _, u := range us {
+		mine := idx%args.Batches == args.Batch
+		idx++
+		if !mine {
+			continue
+		}
+		var points []faultCall
+		w.runOne(u, 0, 0, &points)
+		if args.Thorough() || u.Name == "change-and-add" || u.Name == "invalid-structure" {
+			for k := 1; k <= len(points); k++ {
+				w.runOne(u, k, 0, nil)
+			}
+		}
+		v.Count("runs_from_empty_gateway", 1)
+	}
+	w.base, w.tag = baseA, ""
 	// switches under traffic
 	rounds := args.Pick(2, 12)
 	si := 0
